@@ -5,11 +5,13 @@
 package core
 
 import (
+	_ "embed"
 	"fmt"
 	"go/ast"
 	"go/token"
 	"go/types"
 	"os"
+	"path/filepath"
 	"sort"
 	"strings"
 	"time"
@@ -21,6 +23,28 @@ import (
 	"golang.org/x/tools/go/ssa"
 	"golang.org/x/tools/go/ssa/ssautil"
 )
+
+//go:embed witness/witness.go.txt
+var witnessSrc []byte
+
+// WitnessDirName is the directory (inside the analysed repository, overlay
+// only) of the package of positive and negative examples.
+const WitnessDirName = "zz_qicheck_witness"
+
+// WitnessSpec is one example function of the witness package.
+type WitnessSpec struct {
+	Func       string
+	Positive   []string // rules that must report a violation inside the function
+	Negative   []string // rules that must stay silent inside it
+	Start, End token.Pos
+}
+
+type witnessHit struct {
+	Rule      string
+	Status    Status
+	Pos       token.Pos
+	Construct string
+}
 
 // Module is the import path prefix of the repository under test.
 const Module = "github.com/lugu/qiloop"
@@ -51,6 +75,10 @@ type Ctx struct {
 	Known     []KnownFinding
 	Configs   []string // extra build configurations merged in (thorough tier)
 	LoadStats map[string]int
+
+	WitnessDir  string // absolute path of the overlaid example package
+	Witnesses   []WitnessSpec
+	witnessHits []witnessHit
 }
 
 // Load type-checks ./... of repo and builds SSA for it.  Any type error, an
@@ -72,12 +100,14 @@ func Load(repo, tier string, tests bool, extraEnv ...string) (*Ctx, error) {
 	}
 	env = append(env, "GOFLAGS=-mod=readonly", "GOWORK=off", "GOPROXY=off", "GOSUMDB=off", "GOTOOLCHAIN=local")
 	env = append(env, extraEnv...)
+	c.WitnessDir = filepath.Join(repo, WitnessDirName)
 	cfg := &packages.Config{
-		Mode:  packages.LoadAllSyntax,
-		Dir:   repo,
-		Fset:  c.Fset,
-		Env:   env,
-		Tests: tests,
+		Mode:    packages.LoadAllSyntax,
+		Dir:     repo,
+		Fset:    c.Fset,
+		Env:     env,
+		Tests:   tests,
+		Overlay: map[string][]byte{filepath.Join(c.WitnessDir, "witness.go"): witnessSrc},
 	}
 	pkgs, err := packages.Load(cfg, "./...")
 	if err != nil {
@@ -131,6 +161,33 @@ func Load(repo, tier string, tests bool, extraEnv ...string) (*Ctx, error) {
 		return nil, fmt.Errorf("no package of %s among %d loaded", Module, len(pkgs))
 	}
 	c.AllFuncs = ssautil.AllFunctions(prog)
+	if wp := c.ByPath[Module+"/"+WitnessDirName]; wp != nil {
+		nroot-- // the example package is not part of the repository
+		for _, f := range wp.Syntax {
+			for _, d := range f.Decls {
+				fd, ok := d.(*ast.FuncDecl)
+				if !ok || fd.Doc == nil {
+					continue
+				}
+				w := WitnessSpec{Func: fd.Name.Name, Start: fd.Pos(), End: fd.End()}
+				for _, cm := range fd.Doc.List {
+					t := strings.TrimSpace(strings.TrimPrefix(cm.Text, "//"))
+					switch {
+					case strings.HasPrefix(t, "positive:"):
+						w.Positive = append(w.Positive, strings.Fields(strings.TrimPrefix(t, "positive:"))...)
+					case strings.HasPrefix(t, "negative:"):
+						w.Negative = append(w.Negative, strings.Fields(strings.TrimPrefix(t, "negative:"))...)
+					}
+				}
+				if len(w.Positive)+len(w.Negative) > 0 {
+					c.Witnesses = append(c.Witnesses, w)
+				}
+			}
+		}
+	}
+	if len(c.Witnesses) == 0 {
+		return nil, fmt.Errorf("the example package %s was not loaded (overlay not honoured?)", WitnessDirName)
+	}
 	c.LoadStats["root_packages"] = nroot
 	c.LoadStats["packages_total"] = len(c.ByPath)
 	c.LoadStats["functions_total"] = len(c.AllFuncs)
